@@ -80,7 +80,7 @@ TDiff ==
      IN /\ CkStatus => Ev.exit = DiffExit(P, hdr, tg)
         /\ CkFootprint => Changed(Ev) = {} /\ NoOther(Ev)
         /\ CkRegen => (aftergen => Ev.exit = 0)
-        /\ last' = [cmd |-> "diff", args |-> [Ev.args EXCEPT !.pkgs = P], exit |-> Ev.exit]
+        /\ last' = [cmd |-> "diff", args |-> [pkgs |-> P, header |-> hdr, tags |-> tg], exit |-> Ev.exit]
   /\ Adopt(Ev) /\ UNCHANGED <<src, hist>> /\ st' = st /\ l' = l + 1
 
 TCheckShow ==
